@@ -157,9 +157,10 @@ CLAIMS['C19'] = (
 CLAIMS['C08'] = (
     'model_checking',
     'explicit-state breadth-first exploration of edit histories on real project trees; regeneration triggered by the real make / refninja through the generated rule; differential oracle against a fresh configure',
-    'For 5 (quick) / 6 (thorough) project variants using find_files (single pattern; several bases with extra and '
-    'exclude; platform filter and cache=False; directory()/header_directory(include=); submodule + options + '
-    'pkg-config; a --toolchain file) and both backends, breadth-first search to depth 2/3 over 18 edit operations '
+    'For 7 project variants using find_files (single pattern; several bases with extra and '
+    'exclude; platform filter and cache=False; directory()/header_directory(include=); submodule + options (with a '
+    'nested options script) + pkg-config; a --toolchain file; a project-defined filter function) and both backends, '
+    'breadth-first search to depth 2/3 over 22 edit operations '
     '(add matching / non-matching / extra / excluded file, remove, rename, add and remove directories, add an empty '
     'directory and later fill it, edit and touch build.bfg, edit options/submodule script, stop using find_files, '
     'edit a newly included submodule, drop a line from / extend the toolchain file) from the built initial state and every reached state (snapshots carry the real build '
